@@ -12,6 +12,7 @@
     `read_metadata`, so theirs is not split); the source file's `doc_list` is
     split once, at the end.
 
+  Character literals are masked first (`dropLits`), as the parser does.
   The statement classifier `classify` is a keyword reading of the `if/elif`
   cascade of `FortranContainer.__init__` restricted to the statement forms the
   C03 generator emits (lower-cased line, first words); the full cascade is
@@ -78,9 +79,19 @@ def classifyCore (w r : Str) (whole : Str) : Kind :=
     else .leafAll (declNames whole) true
   else .other
 
+/-- The statement with the contents of its character literals removed (the quote characters stay):
+    `FortranContainer.__init__` replaces every literal by a numbered placeholder before it looks at the
+    statement (`QUOTES_RE`, "Temporarily replace all strings to make the parsing simpler"), so a comma, `::`,
+    `=>`, keyword or parenthesis inside a literal is never syntax.  `inq` = the quote character of the literal
+    the scan is in (a doubled quote closes and re-opens, which drops the same characters). -/
+def dropLits : Str → Option Char → Str
+  | [], _ => []
+  | c :: cs, none => if c == '"' || c == '\'' then c :: dropLits cs (some c) else c :: dropLits cs none
+  | c :: cs, some q => if c == q then c :: dropLits cs none else dropLits cs (some q)
+
 /-- classification of a (non-doc) reader item -/
 def classify (line : Str) : Kind :=
-  let l := lower line
+  let l := lower (dropLits line none)
   let (w, r) := firstWord l
   if w == "end".toList then
     let r' := lstrip r
